@@ -7,6 +7,10 @@ import CifModel.Model.Ladder
     ladder insert <full 0|1> <shape…> <k>   cif_value_insert_element_at, array full or not
     ladder set <tshape…> <shape…> <k>       cif_value_set_element_at: replace an element of shape <tshape> (built before the
                                             window) by a clone of a value of shape <shape>
+    ladder packet <flags|-> <k>             cif_packet_create, one name per flag character: n = already normalised,
+                                            r = respelled (original spelling kept in a copy); the code as it is
+    ladder copychar <tshape…> <k>           cif_value_copy_char onto a value of shape <tshape> (built before the window)
+    ladder deser [ <shape…> ] <k>           cif_value_deserialize of the blob of a list value (shapes without M0/M1)
     ladder names <n> <k>                    cif_loop_get_names on a stored loop with n item names (the code as it is:
                                             getNamesPinned)
   shape tokens: S (unknown/na) | C (char) | M0 | M1 (number without / with su) | [ shape* ]
@@ -42,6 +46,20 @@ mutual
         | some (sh, r) => (parseShapes fuel r).map (fun (es, r') => (sh :: es, r'))
 end
 
+mutual
+  def toD : Shape → Option DShape
+    | .scalar => some .scalar
+    | .chr => some .chr
+    | .numb _ => none
+    | .lst es => (toDs es).map .lst
+  def toDs : List Shape → Option (List DShape)
+    | [] => some []
+    | e :: es =>
+      match toD e, toDs es with
+      | some a, some b => some (a :: b)
+      | _, _ => none
+end
+
 def isort (l : List Nat) : List Nat := l.foldr ins []
 where ins (x : Nat) : List Nat → List Nat
   | [] => [x]
@@ -57,9 +75,14 @@ def summaryW (rc : Nat) (base : Nat) (evs : List Ev) : String :=
   let frees := evs.filterMap (fun e => match e with | .free i => if i > base then some (i - base) else none | _ => none)
   let pfrees := (evs.filter (fun e => match e with | .free i => i ≤ base | _ => false)).length
   let live := allocs.filter (fun i => !frees.contains i)
-  s!"ld rc={if rc == OK then "0" else "E"} allocs={allocs.length} fails={showIds fails} frees={showIds frees} live={showIds live} pfrees={pfrees}"
+  s!"ld rc={if rc == OK then "0" else if rc == UNDEFINED then "U" else "E"} allocs={allocs.length} fails={showIds fails} frees={showIds frees} live={showIds live} pfrees={pfrees}"
 
 def summary (rc : Nat) (evs : List Ev) : String := summaryW rc 0 evs
+
+/-- `-` = no names; otherwise one character per name: n = already normalised, r = respelled -/
+def parseFlags (fl : String) : Option (List Bool) :=
+  if fl == "-" then some [] else
+  fl.toList.mapM (fun c => if c == 'n' then some false else if c == 'r' then some true else none)
 
 def handle : Handler
   | ["dup", n, k] => do
@@ -91,6 +114,36 @@ def handle : Handler
           let (rc, _, st) := insertElement k full sh
           pure (summary rc st.evs)
       | _ => none
+  | ["packet", fl, k] => do                    -- the code as it is (rc=U: the C runs into undefined behaviour here)
+      let k ← k.toNat?
+      let flags ← parseFlags fl
+      let (rc, _, st) := packetCreatePinned k flags
+      pure (summary rc st.evs)
+  | ["packetfixed", fl, k] => do               -- with the proposed repair of cif_packet_create_norm's failure handler
+      let k ← k.toNat?
+      let flags ← parseFlags fl
+      let (rc, _, st) := packetCreate k flags
+      pure (summary rc st.evs)
+  | "copychar" :: rest => do
+      let (tsh, r) ← parseShape (rest.length + 1) rest
+      match r with
+      | [k] => do
+          let k ← k.toNat?
+          match clone 0 tsh with
+          | (none, _) => none
+          | (some old, s0) =>
+            let (rc, _, st) := copyChar (if k = 0 then 0 else s0.count + k) old s0
+            pure (summaryW rc s0.count (st.evs.drop s0.evs.length))
+      | _ => none
+  | "deser" :: rest => do                       -- top level must be a list; no numbers
+      let (sh, r) ← parseShape (rest.length + 1) rest
+      match sh, r with
+      | .lst es, [k] => do
+          let k ← k.toNat?
+          let ds ← toDs es
+          let (rc, _, st) := deserialize k ds
+          pure (summary rc st.evs)
+      | _, _ => none
   | "set" :: rest => do
       -- the target element is built first (fault-free clone of <tshape> from the empty state); the window starts after it
       let (tsh, r0) ← parseShape (rest.length + 1) rest
